@@ -155,8 +155,8 @@ class Check(CheckBase):
         # specified in C16, whose harness (symbolic board, earlier requests, power cycle) is reused here
         from checks import c16
         for c in c16.Check().cases(tier):
-            if c["label"].startswith("motors_enable"):
-                cs.append(dict(c, label="ebb3/" + c["label"], delegate_c16=c["label"]))
+            if c["label"] == "motors_enable" or (c["label"].startswith("motors_enable") and "power-cycle" in c["label"]):
+                cs.append(dict(c, label="ebb3/" + c["label"], delegate_c16=c["label"], pmax=1 if tier == "quick" else 2))
         return cs
 
     def config(self, tier, case):
